@@ -1,2 +1,408 @@
-import SyneTune.Model.Tuner
-/- placeholder: theorems follow -/
+import SyneTune.Lemmas.TunerStats
+/-
+C17 — metric statistics (`MetricsStatistics`, `TuningStatus`), best trial
+(`print_best_metric_found`), best row (`ExperimentResult.best_config` via pandas
+`argmin/argmax`) and `metric_name_mode`.
+Property theorems only.  Model: `Model/TuningStatus.lean`; helper lemmas and the vocabulary
+used below are in `Lemmas/TunerStats.lean`:
+
+    valsOf k rs    := rs.filterMap (fun m => match alookup k m with | some (.num x) => some x | _ => none)
+                      -- the numeric values reported for key `k`, in order
+    AllNum k rs    := ∀ m ∈ rs, ∀ v, alookup k m = some v → v.isNum = true
+    KeysUnique m   := (m.map (·.1)).Nodup          -- a Python dict
+    foldAdd s rs   := rs.foldl MStat.add s          -- `for r in rs: stats.add(r)`
+    NoNan l        := ∀ k x, alookup k l = some x → x ≠ .nan
+    TSNoNan ts     := ∀ kv ∈ ts.perTrial, NoNan kv.2.mins ∧ NoNan kv.2.maxs
+-/
+namespace SyneTune.C17
+open SyneTune SyneTune.Tuner
+
+/-! ### 1. count -/
+
+/-- `count` is the number of `add` calls. -/
+theorem stats_count (rs : List Metrics) : (foldAdd {} rs).count = rs.length := by
+  rw [foldAdd_count]; simp
+
+example : (foldAdd {} [[(0, .num (.fin 1))], [], [(0, .other), (1, .num .nan)]]).count = 3 := by
+  decide +kernel
+
+/-! ### 2. NaN never becomes a running minimum or maximum -/
+
+/-- Python `min(a, b)` returns `a` unless `b < a`, every comparison with NaN is false and the
+running value starts at `+inf` (`-inf` for the maximum): no stored minimum/maximum is NaN,
+whatever is reported (NaN, non-numbers, duplicate keys, …). -/
+theorem stats_nan_never_enters (rs : List Metrics) (k : Nat) (x : XRat) :
+    (alookup k (foldAdd {} rs).mins = some x → x ≠ .nan) ∧
+    (alookup k (foldAdd {} rs).maxs = some x → x ≠ .nan) := by
+  have h := foldAdd_noNan rs {} ⟨NoNan_nil, NoNan_nil⟩
+  exact ⟨h.1 k x, h.2 k x⟩
+
+/-- the same from any NaN-free state, and for the per-trial statistics of a `TuningStatus`:
+`update` keeps them NaN-free (this discharges the hypothesis of `best_tuner_min/max`). -/
+theorem stats_nan_never_enters_status (ts : TStatus) (sd : List (Nat × St))
+    (res : List (Nat × Metrics)) (h : TSNoNan ts) : TSNoNan (ts.update sd res) :=
+  TSNoNan_update ts sd res h
+
+theorem stats_nan_never_enters_status_init : TSNoNan {} := TSNoNan_empty
+
+example :
+    let s := foldAdd {} [[(0, .num .nan)], [(0, .num (.fin 2))], [(0, .num .nan)]]
+    alookup 0 s.mins = some (.fin 2) ∧ alookup 0 s.maxs = some (.fin 2) ∧
+    alookup 0 s.sums = some .nan := by
+  decide +kernel
+
+/-- a NaN reported *first* is skipped as well: the minimum stays `+inf`. -/
+example : alookup 0 (foldAdd {} [[(0, .num .nan)]]).mins = some .pinf := by decide +kernel
+
+/-! ### 3. minimum and maximum -/
+
+/-- for a key that only ever carried numbers: an entry exists iff a value was reported; the
+stored minimum is the left fold of Python's `min` from `+inf`; it is a lower bound of all
+non-NaN values and is attained (or is `+inf`, when all values were NaN or `+inf`). -/
+theorem stats_min (rs : List Metrics) (k : Nat) (hu : ∀ m ∈ rs, KeysUnique m) (hn : AllNum k rs) :
+    (alookup k (foldAdd {} rs).mins = none ↔ valsOf k rs = []) ∧
+    ∀ m, alookup k (foldAdd {} rs).mins = some m →
+      m = (valsOf k rs).foldl pyMin .pinf ∧
+      (∀ v ∈ valsOf k rs, v ≠ .nan → v.lt m = false) ∧
+      (m = .pinf ∨ m ∈ valsOf k rs) := by
+  have hp := congrArg KStat.mins (proj_foldAdd_allNum rs k hu hn)
+  change alookup k (foldAdd {} rs).mins = _ at hp
+  rw [hp]
+  by_cases hv : valsOf k rs = []
+  · simp [hv]
+  · simp only [hv, if_false, Option.some.injEq, reduceCtorEq, true_and]
+    intro m hm
+    subst hm
+    obtain ⟨_, _, h3, h4⟩ := foldl_pyMin_spec (valsOf k rs) .pinf (by simp)
+    exact ⟨rfl, h3, h4⟩
+
+theorem stats_max (rs : List Metrics) (k : Nat) (hu : ∀ m ∈ rs, KeysUnique m) (hn : AllNum k rs) :
+    (alookup k (foldAdd {} rs).maxs = none ↔ valsOf k rs = []) ∧
+    ∀ m, alookup k (foldAdd {} rs).maxs = some m →
+      m = (valsOf k rs).foldl pyMax .ninf ∧
+      (∀ v ∈ valsOf k rs, v ≠ .nan → m.lt v = false) ∧
+      (m = .ninf ∨ m ∈ valsOf k rs) := by
+  have hp := congrArg KStat.maxs (proj_foldAdd_allNum rs k hu hn)
+  change alookup k (foldAdd {} rs).maxs = _ at hp
+  rw [hp]
+  by_cases hv : valsOf k rs = []
+  · simp [hv]
+  · simp only [hv, if_false, Option.some.injEq, reduceCtorEq, true_and]
+    intro m hm
+    subst hm
+    obtain ⟨_, _, h3, h4⟩ := foldl_pyMax_spec (valsOf k rs) .ninf (by simp)
+    exact ⟨rfl, h3, h4⟩
+
+/-- hypotheses are satisfiable; key 0 carries 3, NaN, 2, −1 (key 1 carries a string). -/
+example :
+    let rs : List Metrics := [[(0, .num (.fin 3)), (1, .other)], [(0, .num .nan)], [(1, .num (.fin 5))],
+               [(1, .num (.fin 7)), (0, .num (.fin 2))], [(0, .num (.fin (-1)))]]
+    (∀ m ∈ rs, KeysUnique m) ∧ AllNum 0 rs ∧
+    valsOf 0 rs = [.fin 3, .nan, .fin 2, .fin (-1)] ∧
+    alookup 0 (foldAdd {} rs).mins = some (.fin (-1)) ∧
+    alookup 0 (foldAdd {} rs).maxs = some (.fin 3) := by
+  refine ⟨?_, ?_, by decide +kernel, by decide +kernel, by decide +kernel⟩
+  · simp [KeysUnique]
+  · simp [AllNum, alookup, Val.isNum]
+
+/-! ### 4. sum -/
+
+/-- the stored sum is Python's left-to-right float sum of the reported values from `0`. -/
+theorem stats_sum (rs : List Metrics) (k : Nat) (hu : ∀ m ∈ rs, KeysUnique m) (hn : AllNum k rs) :
+    alookup k (foldAdd {} rs).sums =
+      if valsOf k rs = [] then none else some ((valsOf k rs).foldl XRat.add (.fin 0)) := by
+  have hp := congrArg KStat.sums (proj_foldAdd_allNum rs k hu hn)
+  change alookup k (foldAdd {} rs).sums = _ at hp
+  rw [hp]
+  by_cases hv : valsOf k rs = [] <;> simp [hv]
+
+/-- and `is_numeric[k]` is `True` exactly when a value was reported. -/
+theorem stats_is_numeric (rs : List Metrics) (k : Nat) (hu : ∀ m ∈ rs, KeysUnique m) (hn : AllNum k rs) :
+    alookup k (foldAdd {} rs).isNum = if valsOf k rs = [] then none else some true := by
+  have hp := congrArg KStat.isNum (proj_foldAdd_allNum rs k hu hn)
+  change alookup k (foldAdd {} rs).isNum = _ at hp
+  rw [hp]
+  by_cases hv : valsOf k rs = [] <;> simp [hv]
+
+example :
+    let rs : List Metrics := [[(0, .num (.fin 3)), (1, .other)], [(1, .num (.fin 5))],
+               [(1, .num (.fin 7)), (0, .num (.fin (1/2)))]]
+    alookup 0 (foldAdd {} rs).sums = some (.fin (7/2)) ∧ alookup 2 (foldAdd {} rs).sums = none := by
+  decide +kernel
+
+/-! ### 5. the non-numeric latch -/
+
+/-- once a non-number has been reported for a key (`is_numeric[k] = False`) nothing stored
+for that key changes again, whatever is added. -/
+theorem stats_latch (s : MStat) (k : Nat) (h : alookup k s.isNum = some false) (m : Metrics) :
+    alookup k (s.add m).mins = alookup k s.mins ∧
+    alookup k (s.add m).maxs = alookup k s.maxs ∧
+    alookup k (s.add m).sums = alookup k s.sums ∧
+    alookup k (s.add m).isNum = some false := by
+  have hp := proj_foldl_addOne_latched m s k h
+  rw [← proj_add] at hp
+  exact ⟨congrArg KStat.mins hp, congrArg KStat.maxs hp, congrArg KStat.sums hp,
+    (congrArg KStat.isNum hp).trans h⟩
+
+/-- … and so for every later sequence of reports. -/
+theorem stats_latch_forever (s : MStat) (k : Nat) (h : alookup k s.isNum = some false)
+    (rs : List Metrics) :
+    alookup k (foldAdd s rs).mins = alookup k s.mins ∧
+    alookup k (foldAdd s rs).maxs = alookup k s.maxs ∧
+    alookup k (foldAdd s rs).sums = alookup k s.sums ∧
+    alookup k (foldAdd s rs).isNum = some false := by
+  induction rs generalizing s with
+  | nil => exact ⟨rfl, rfl, rfl, h⟩
+  | cons m rs ih =>
+    obtain ⟨h1, h2, h3, h4⟩ := stats_latch s k h m
+    obtain ⟨i1, i2, i3, i4⟩ := ih (s.add m) h4
+    rw [foldAdd_cons]
+    exact ⟨i1.trans h1, i2.trans h2, i3.trans h3, i4⟩
+
+/-- the latch is set by the first non-number (a state satisfying the hypothesis), and the
+later number 0 does not lower the minimum 3. -/
+example :
+    let s := foldAdd {} [[(0, .num (.fin 3))], [(0, .other)]]
+    alookup 0 s.isNum = some false ∧
+    alookup 0 (s.add [(0, .num (.fin 0))]).mins = some (.fin 3) := by
+  decide +kernel
+
+/-! ### 6. `TuningStatus.update` -/
+
+/-- the overall statistics absorb every new result, in order. -/
+theorem update_overall (ts : TStatus) (sd : List (Nat × St)) (res : List (Nat × Metrics)) :
+    (ts.update sd res).overall = (res.map (·.2)).foldl MStat.add ts.overall := by
+  unfold TStatus.update
+  exact foldl_addResult_overall res _
+
+/-- the statistics of trial `t` absorb exactly the new results of trial `t`, in order
+(a missing entry reads as the empty statistics — `defaultdict`). -/
+theorem update_per_trial (ts : TStatus) (sd : List (Nat × St)) (res : List (Nat × Metrics)) (t : Nat) :
+    (alookup t (ts.update sd res).perTrial).getD {} =
+      ((res.filter (fun r => decide (r.1 = t))).map (·.2)).foldl MStat.add
+        ((alookup t ts.perTrial).getD {}) := by
+  unfold TStatus.update
+  simp only
+  rw [getD_alookup_foldl_touch]
+  exact foldl_addResult_perTrial res _ t
+
+/-- trial ids stay unique in `trial_metric_statistics`. -/
+theorem update_keys_unique (ts : TStatus) (sd : List (Nat × St)) (res : List (Nat × Metrics))
+    (h : (ts.perTrial.map (·.1)).Nodup) : ((ts.update sd res).perTrial.map (·.1)).Nodup :=
+  nodup_keys_update ts sd res h
+
+example :
+    let ts := ({} : TStatus).update [(0, .inProgress), (1, .inProgress)]
+      [(1, [(0, .num (.fin 4))]), (0, [(0, .num (.fin 9))]), (1, [(0, .num (.fin 2))])]
+    ts.overall.count = 3 ∧ ((alookup 1 ts.perTrial).getD {}).count = 2 ∧
+    alookup 0 ((alookup 1 ts.perTrial).getD {}).mins = some (.fin 2) ∧
+    ts.perTrial.map (·.1) = [1, 0] := by
+  decide +kernel
+
+/-! ### 7. best trial (`print_best_metric_found`) -/
+
+theorem best_tuner_first_none (l : List (Nat × XRat)) : firstMin l = none ↔ l = [] :=
+  firstMin_eq_none l
+
+/-- with no NaN key, `firstMin` (= `sorted(l, key=…)[0]`, stable) returns an element of `l`
+of minimal key, and the first such. -/
+theorem best_tuner_first (l : List (Nat × XRat)) (hn : ∀ x ∈ l, x.2 ≠ .nan) (y : Nat × XRat)
+    (h : firstMin l = some y) :
+    y ∈ l ∧ (∀ x ∈ l, x.2.lt y.2 = false) ∧
+    ∃ pre post, l = pre ++ y :: post ∧ ∀ x ∈ pre, y.2.lt x.2 = true :=
+  firstMin_spec l hn y h
+
+example : firstMin [(0, .fin 3), (1, .fin 1), (2, .pinf), (3, .fin 1)] = some (1, .fin 1) := by
+  decide +kernel
+
+/-- `mode="min"`: the reported trial `t` is an entry of the per-trial statistics whose minimum
+of `name` (`+inf` when the trial never reported it) is the returned value `v`; no trial has a
+strictly smaller minimum; every earlier trial has a strictly larger one. -/
+theorem best_tuner_min (ts : TStatus) (name t : Nat) (v : XRat)
+    (hn : ∀ kv ∈ ts.perTrial, ∀ x, alookup name kv.2.mins = some x → x ≠ .nan)
+    (h : ts.best name true = some (t, v)) :
+    ts.overall.count ≠ 0 ∧
+    (∃ pre stats post, ts.perTrial = pre ++ (t, stats) :: post ∧
+      (alookup name stats.mins).getD .pinf = v ∧
+      (∀ kv ∈ pre, v.lt ((alookup name kv.2.mins).getD .pinf) = true) ∧
+      ((ts.perTrial.map (·.1)).Nodup → alookup t ts.perTrial = some stats)) ∧
+    (∀ kv ∈ ts.perTrial, ((alookup name kv.2.mins).getD .pinf).lt v = false) := by
+  unfold TStatus.best at h
+  by_cases hc : ts.overall.count = 0
+  · simp [hc] at h
+  · simp only [hc, if_false, if_true] at h
+    have hg : ∀ kv ∈ ts.perTrial, (alookup name kv.2.mins).getD .pinf ≠ .nan := by
+      intro kv hkv
+      cases hl : alookup name kv.2.mins with
+      | none => simp
+      | some x => simpa using hn kv hkv x hl
+    obtain ⟨⟨pre, b, post, e, hb, hpre⟩, hall⟩ :=
+      firstMin_map_spec ts.perTrial (fun s => (alookup name s.mins).getD .pinf) hg t v h
+    refine ⟨hc, ⟨pre, b, post, e, hb, hpre, ?_⟩, hall⟩
+    intro hnd
+    exact alookup_of_mem_nodup t b _ hnd (by rw [e]; simp)
+
+/-- `mode="max"` (in fact every mode value other than `"min"`/`None`): symmetric, with the
+per-trial maxima and `-inf` as default. -/
+theorem best_tuner_max (ts : TStatus) (name t : Nat) (v : XRat)
+    (hn : ∀ kv ∈ ts.perTrial, ∀ x, alookup name kv.2.maxs = some x → x ≠ .nan)
+    (h : ts.best name false = some (t, v)) :
+    ts.overall.count ≠ 0 ∧
+    (∃ pre stats post, ts.perTrial = pre ++ (t, stats) :: post ∧
+      (alookup name stats.maxs).getD .ninf = v ∧
+      (∀ kv ∈ pre, ((alookup name kv.2.maxs).getD .ninf).lt v = true) ∧
+      ((ts.perTrial.map (·.1)).Nodup → alookup t ts.perTrial = some stats)) ∧
+    (∀ kv ∈ ts.perTrial, v.lt ((alookup name kv.2.maxs).getD .ninf) = false) := by
+  unfold TStatus.best at h
+  by_cases hc : ts.overall.count = 0
+  · simp [hc] at h
+  · simp only [hc, if_false, Bool.false_eq_true] at h
+    have hg : ∀ kv ∈ ts.perTrial, ((alookup name kv.2.maxs).getD .ninf).neg ≠ .nan := by
+      intro kv hkv
+      rw [XRat.neg_ne_nan]
+      cases hl : alookup name kv.2.maxs with
+      | none => simp
+      | some x => simpa using hn kv hkv x hl
+    cases hf : firstMin (ts.perTrial.map
+        (fun kv => (kv.1, ((alookup name kv.2.maxs).getD .ninf).neg))) with
+    | none => rw [hf] at h; cases h
+    | some y =>
+      rw [hf] at h
+      obtain ⟨yt, yv⟩ := y
+      simp only [Option.some.injEq, Prod.mk.injEq] at h
+      obtain ⟨rfl, rfl⟩ := h
+      obtain ⟨⟨pre, b, post, e, hb, hpre⟩, hall⟩ :=
+        firstMin_map_spec ts.perTrial (fun s => ((alookup name s.maxs).getD .ninf).neg) hg yt yv hf
+      refine ⟨hc, ⟨pre, b, post, e, ?_, ?_, ?_⟩, ?_⟩
+      · rw [← hb, XRat.neg_neg]
+      · intro kv hkv
+        have := hpre kv hkv
+        rw [← hb, XRat.neg_lt_neg] at this
+        rw [← hb, XRat.neg_neg]; exact this
+      · intro hnd
+        exact alookup_of_mem_nodup yt b _ hnd (by rw [e]; simp)
+      · intro kv hkv
+        have := hall kv hkv
+        rw [← hb, XRat.neg_lt_neg] at this
+        rw [← hb, XRat.neg_neg]; exact this
+
+/-- three trials; trial 2 never reported metric 0 (reads `+inf` / `-inf`); trials 0 and 1 tie
+on the minimum 1 — the first (trial 0) is reported; the maximum 5 is trial 1's. -/
+example :
+    let ts := ({} : TStatus).update [(0, .inProgress), (1, .inProgress), (2, .inProgress)]
+      [(0, [(0, .num (.fin 1))]), (1, [(0, .num (.fin 5))]), (1, [(0, .num (.fin 1))]),
+       (2, [(1, .num (.fin 0))])]
+    TSNoNan ts ∧ ts.best 0 true = some (0, .fin 1) ∧ ts.best 0 false = some (1, .fin 5) := by
+  refine ⟨?_, by decide +kernel, by decide +kernel⟩
+  exact stats_nan_never_enters_status _ _ _ stats_nan_never_enters_status_init
+
+/-! ### 8. best row of the results table (pandas `argmin` / `argmax`, `skipna=True`) -/
+
+/-- no answer exactly when every cell is NaN / missing (pandas raises / returns −1). -/
+theorem best_experiment_none (useMin : Bool) (col : List XRat) (i0 : Nat) :
+    argBest useMin col i0 = none ↔ ∀ x ∈ col, x = .nan :=
+  argBest_eq_none useMin col i0
+
+/-- the answer `(i, v)` is a row of the column (rows are numbered from `i0`), `v` is not NaN,
+no non-NaN cell is strictly better, and every earlier non-NaN cell is strictly worse. -/
+theorem best_experiment (useMin : Bool) (col : List XRat) (i0 i : Nat) (v : XRat)
+    (h : argBest useMin col i0 = some (i, v)) :
+    i0 ≤ i ∧ col[i - i0]? = some v ∧ v ≠ .nan ∧
+    (∀ (j : Nat) x, col[j]? = some x → x ≠ .nan →
+      (useMin = true → x.lt v = false) ∧ (useMin = false → v.lt x = false)) ∧
+    (∀ (j : Nat) x, j < i - i0 → col[j]? = some x → x ≠ .nan →
+      (useMin = true → v.lt x = true) ∧ (useMin = false → x.lt v = true)) := by
+  obtain ⟨h1, h2, h3, h4, h5⟩ := argBest_spec useMin col i0 i v h
+  refine ⟨h1, h2, h3, ?_, ?_⟩
+  · intro j x hx hxn
+    have := h4 j x hx hxn
+    cases useMin <;> simp [better] at this ⊢ <;> exact this
+  · intro j x hj hx hxn
+    have := h5 j x hj hx hxn
+    cases useMin <;> simp [better] at this ⊢ <;> exact this
+
+example :
+    argBest true [.nan, .fin 2, .fin 1, .nan, .fin 1] 0 = some (2, .fin 1) ∧
+    argBest false [.nan, .fin 2, .fin 1, .pinf, .pinf] 10 = some (13, .pinf) ∧
+    argBest true [.nan, .nan] 0 = none := by
+  decide +kernel
+
+/-! ### 9. `metric_name_mode` -/
+
+/-- (a) metric given by name, one mode for all metrics. -/
+theorem mode_lookup_name_one (names : List Nat) (k : Nat) (m : Mode) (hk : k ∈ names) :
+    metricNameMode names (.one m) (.byName k) = .ok (k, m) := by
+  simp [metricNameMode, hk]
+
+/-- (b) metric given by name, list of modes: the mode at the position of the first occurrence. -/
+theorem mode_lookup_name_many (names : List Nat) (k i : Nat) (ms : List Mode) (m : Mode)
+    (hi : indexOf? names k = some i) (hm : ms[i]? = some m) :
+    metricNameMode names (.many ms) (.byName k) = .ok (k, m) := by
+  have hk := mem_of_indexOf? names k i hi
+  simp [metricNameMode, hk, hi, hm]
+
+/-- `list.index`: the first position holding `k`. -/
+theorem mode_lookup_index_of (names : List Nat) (k i : Nat) (hi : indexOf? names k = some i) :
+    names[i]? = some k ∧ ∀ j < i, names[j]? ≠ some k :=
+  indexOf?_spec names k i hi
+
+/-- … which exists for every member. -/
+theorem mode_lookup_index_of_mem (names : List Nat) (k : Nat) (hk : k ∈ names) :
+    ∃ i, indexOf? names k = some i :=
+  indexOf?_isSome_of_mem names k hk
+
+/-- (c) metric given by a non-negative position inside the list. -/
+theorem mode_lookup_index_one (names : List Nat) (i : Int) (m : Mode) (h0 : 0 ≤ i)
+    (h : i.toNat < names.length) :
+    metricNameMode names (.one m) (.byIndex i) = .ok (names[i.toNat], m) := by
+  have hlt : i < (names.length : Int) := by omega
+  simp [metricNameMode, hlt, pyIndex, h0]
+
+theorem mode_lookup_index_many (names : List Nat) (i : Int) (ms : List Mode) (m : Mode) (h0 : 0 ≤ i)
+    (h : i.toNat < names.length) (hm : ms[i.toNat]? = some m) :
+    metricNameMode names (.many ms) (.byIndex i) = .ok (names[i.toNat], m) := by
+  have hlt : i < (names.length : Int) := by omega
+  simp [metricNameMode, hlt, pyIndex, h0, hm]
+
+/-- negative positions pass the `assert metric < len(metric_names)` and index from the end;
+beyond the front they raise `IndexError`. -/
+theorem mode_lookup_negative_index_one (names : List Nat) (i : Int) (m : Mode) (h0 : i < 0)
+    (h : (-i).toNat ≤ names.length) :
+    metricNameMode names (.one m) (.byIndex i) =
+      .ok (names[names.length - (-i).toNat]'(by omega), m) := by
+  have hlt : i < (names.length : Int) := by omega
+  have h0' : ¬ 0 ≤ i := by omega
+  have hb : names.length - (-i).toNat < names.length := by omega
+  simp [metricNameMode, hlt, pyIndex, h0', h, List.getElem?_eq_getElem hb]
+
+theorem mode_lookup_negative_index_out_of_range (names : List Nat) (mode : ModeSpec) (i : Int)
+    (h : names.length < (-i).toNat) :
+    metricNameMode names mode (.byIndex i) = .error .indexError := by
+  have hlt : i < (names.length : Int) := by omega
+  have h0' : ¬ 0 ≤ i := by omega
+  have h' : ¬ (-i).toNat ≤ names.length := by omega
+  simp [metricNameMode, hlt, pyIndex, h0', h']
+
+/-- (d) the two assertions. -/
+theorem mode_lookup_unknown_name (names : List Nat) (mode : ModeSpec) (k : Nat) (hk : k ∉ names) :
+    metricNameMode names mode (.byName k) = .error .assertion := by
+  simp [metricNameMode, hk]
+
+theorem mode_lookup_index_too_large (names : List Nat) (mode : ModeSpec) (i : Int)
+    (h : (names.length : Int) ≤ i) :
+    metricNameMode names mode (.byIndex i) = .error .assertion := by
+  have hlt : ¬ i < (names.length : Int) := by omega
+  simp [metricNameMode, hlt]
+
+example :
+    metricNameMode [7, 8, 9] (.many [.min, .max, .min]) (.byName 8) = .ok (8, .max) ∧
+    metricNameMode [7, 8, 9] (.many [.min, .max, .min]) (.byIndex 2) = .ok (9, .min) ∧
+    metricNameMode [7, 8, 9] (.one .max) (.byIndex 0) = .ok (7, .max) ∧
+    metricNameMode [7, 8, 9] (.one .max) (.byName 5) = .error .assertion ∧
+    metricNameMode [7, 8, 9] (.one .max) (.byIndex 3) = .error .assertion ∧
+    metricNameMode [7, 8, 9] (.one .max) (.byIndex (-1)) = .ok (9, .max) ∧
+    metricNameMode [7, 8, 9] (.one .max) (.byIndex (-4)) = .error .indexError ∧
+    indexOf? [7, 8, 9, 8] 8 = some 1 := by
+  decide
+
+end SyneTune.C17
